@@ -3,10 +3,10 @@
 
 def config(T):
     return {
-        "C01": dict(pkg="c01", tests=[T("TestPinned"), T("TestExec", 4800, 80000, sq=8, st=16, race=True), T("TestExecUnionEdge", 800, 16000, sq=2, st=8), T("TestExecSharedFragments", 1200, 32000, sq=4, st=8, race=True), T("TestExecDirectives", 1200, 24000, sq=4, st=8)]),
+        "C01": dict(pkg="c01", tests=[T("TestPinned"), T("TestExec", 9600, 80000, sq=8, st=16, race=True), T("TestExecUnionEdge", 2400, 16000, sq=4, st=8), T("TestExecSharedFragments", 1200, 32000, sq=4, st=8, race=True), T("TestExecDirectives", 1200, 24000, sq=4, st=8)]),
         "C02": dict(pkg="c02", tests=[T("TestConverge", 2400, 32000, sq=8, st=16, race=True), T("TestRoundTrip", 8000, 80000, sq=4, st=8, pkg="c03")]),
         "C03": dict(pkg="c03", fuzz=[dict(name="FuzzRoundTrip", secs=60)], tests=[T("TestPinned"), T("TestRoundTrip", 36000, 400000, sq=8, st=16)]),
-        "C06": dict(pkg="c06", race_quick=True, tests=[T("TestKnownTypename"), T("TestSiblingHops", race=True), T("TestTransparent", 640, 16000, sq=8, st=16), T("TestDirectivesGateway", 80, 4000, sq=4, st=8),
+        "C06": dict(pkg="c06", race_quick=True, tests=[T("TestKnownTypename"), T("TestSiblingHops", race=True), T("TestTransparent", 1600, 16000, sq=8, st=16), T("TestDirectivesGateway", 80, 4000, sq=4, st=8),
                                                        T("TestConcurrentRefresh", 30, 600, sq=1, st=4, race=True, timeout_q=900), T("TestRefreshAfterChange", 400, 6000, sq=4, st=8), T("TestCancelledRequest", 600, 12000, sq=4, st=8, race=True)]),
         "C07": dict(pkg="c07", tests=[T("TestLiveSQL", 6400, 48000, sq=8, st=16, race=True)]),
         "C08": dict(pkg="c08", tests=[T("TestPinned"), T("TestCache", 7200, 96000, sq=8, st=16, race=True), T("TestRegisterRace", 1600, 24000, sq=4, st=8, pkg="c04")]),
